@@ -141,7 +141,7 @@ class G:
         if self._c["v"] is not None and not any(self._c[n] != v for n, v in req.items()):
             return ("cached", self._c["v"])
         self._c["v"] = p + q
-        self._c.update(req)
+        self._c.update(v2=p, **req)
         return ("new", self._c["v"])
 def run(x):
     g = G(); return [g.conv(x, 1), g.conv(x, 1), g.conv(-5, 1), g.conv(0, 1), g.conv(x, 2)]
